@@ -4,6 +4,7 @@ mod hist;
 mod ks;
 mod provider;
 mod storage;
+mod store;
 mod treemath;
 
 #[global_allocator]
@@ -17,6 +18,7 @@ fn main() {
         "codec" => codec::run(),
         "hist" => hist::run(),
         "ks" => ks::run(),
+        "store" => store::run(),
         _ => {
             eprintln!("usage: mlsh <treemath|...>");
             2
